@@ -148,3 +148,64 @@ _t_shared_structs = tasks
 def tasks(tier):
     from specs.C08 import shared_struct_tasks
     return _t_shared_structs(tier) + shared_struct_tasks('C19.b.', ['LendingPoolCollectBankFees', 'LendingPoolWithdrawFees', 'LendingPoolWithdrawInsurance', 'LendingPoolWithdrawFeesPermissionless', 'LendingPoolUpdateFeesDestinationAccount', 'LendingAccountWithdrawEmissions', 'LendingAccountWithdrawEmissionsPermissionless', 'LendingAccountSettleEmissions', 'LendingPoolSetupEmissions', 'LendingPoolUpdateEmissionsParameters', 'MarginfiAccountUpdateEmissionsDestinationAccount'])
+
+
+# ---------------------------------------------------------------- C19.d (handlers): emissions leave the emissions vault only in the settled amount and only to the entitled destination
+def mk_withdraw_emissions(perm):
+    def t(world):
+        from specs.handlers import run_handler, KERNELS, short, account_field_of
+        from specs.flows import SUMMARIES, evs
+        from specs.accounts import sum_ata, ATA
+        sname = 'LendingAccountWithdrawEmissionsPermissionless' if perm else 'LendingAccountWithdrawEmissions'
+        fnre = r'emissions::lending_account_withdraw_emissions_permissionless$' if perm else r'emissions::lending_account_withdraw_emissions$'
+        eng, f, args, res = run_handler(world, fnre, kernels=[k for k in KERNELS if k != r'BankAccountWrapper'], summaries=list(SUMMARIES) + [(re.compile(r'get_associated_token_address').pattern, sum_ata)])
+        ob = Ob('C19.d.' + ('withdraw_permissionless' if perm else 'withdraw'), ('permissionless' if perm else 'owner') + ' emissions withdrawal: disabled accounts refused' + (', frozen accounts refused' if perm else '') +
+                '; exactly the amount returned by settle_emissions_and_get_transfer_amount leaves the emissions vault (nothing when it is 0); it goes from `emissions_vault` to `destination_account`' +
+                (', which must be the associated token account of the wallet the OWNER registered (non-default), for this mint and token program' if perm else ' (chosen by the authorised signer, C19.b)'),
+                [f.name], 'handler mode; wrapper op summarised (C19.c/d decide it), token CPI opaque; every accepting path'); ob.paths = len(res)
+        names = STRUCTS[sname]; n_ok = 0
+        for r, okc in ok_paths(res):
+            E = evs(r)
+            if ob.witness(eng, r, [okc]) is False: continue
+            n_ok += 1
+            ops = [e for e in E if e[0] == 'wrap_op']
+            T = [e for e in E if e[0] == 'call' and re.search(r'transfer_checked$', e[1])]
+            if [o[1] for o in ops] != ['settle_emissions_and_get_transfer_amount']: ob.structural(f'balance operations {[o[1] for o in ops]} (exactly one settle required)', 'ops'); continue
+            amt = ops[0][4].e
+            ob.prove(eng, r, [okc], ops[0][5] == 0, 'settle error propagated', role='settle-error')
+            loads = [e for e in E if e[0] == 'call' and 'AccountLoader' in e[1] and 'MarginfiAccount' in e[1]]
+            if not loads: ob.fail('no account load'); continue
+            acct = f'{loads[0][2][0]}.acct'
+            fl = fsym(acct, 'MarginfiAccount', 'account_flags')
+            ob.prove(eng, r, [okc], fl % 2 == 0, 'ACCOUNT_DISABLED accounts are refused', role='disabled')
+            if perm: ob.prove(eng, r, [okc], (fl / 64) % 2 == 0, 'frozen accounts are refused', role='frozen')
+            if len(T) > 1: ob.structural('more than one token transfer', 'transfers'); continue
+            if not T:
+                ob.prove(eng, r, [okc], amt == 0, 'no transfer only when nothing is due', role='amount'); continue
+            ob.prove(eng, r, [okc], z3.And(T[0][2][1].e == amt, amt > 0, zint(T[0][3].disc) == 0), 'tokens transferred == the settled whole-token amount; transfer error propagated', role='amount')
+            ctxs = [e for e in E if e[0] == 'call' and re.search(r'CpiContext::<.*>::new_with_signer$|CpiContext.*new_with_signer$', e[1])]
+            tc = eng.deref_val(ctxs[-1][2][1]) if ctxs else None
+            if not isinstance(tc, StructV): ob.fail('TransferChecked accounts not visible'); continue
+            route = {k: account_field_of(eng, v, sname) for k, v in tc.fields.items() if k in ('from', 'to', 'authority', 'mint') or isinstance(k, int)}
+            got = (route.get('from', route.get(0)), route.get('to', route.get(2 if 2 in route else 1)), route.get('authority', route.get(3)))
+            ob.queries += 1
+            if route.get('from') == 'emissions_vault' and route.get('to') == 'destination_account' and route.get('authority') == 'emissions_auth' and route.get('mint') == 'emissions_mint': ob.unsat += 1
+            else: ob.sat += 1; ob.cex.append({'ob': ob.oid, 'label': f'transfer accounts are {route} (expected emissions_vault -> destination_account under emissions_auth, mint emissions_mint)', 'role': 'route', 'model': {}, 'replay': None})
+            if perm:
+                pcn = free_consts(z3.And(r['pc']))
+                def K(n):
+                    # the key symbol of an instruction account: `a0.1*.<i>.key`, or through a Box: `a0.1*.<i>.0.0.*.key`
+                    c = [x for x in pcn if re.match(r'^a0\.1\*\.%d(\.[0-9.*]+)?\.key$' % names.index(n), x)]
+                    return z3.Int(c[0]) if len(c) == 1 else z3.Int(f'a0.1*.{names.index(n)}.key')
+                wallet = fsym(acct, 'MarginfiAccount', 'emissions_destination_account')
+                ob.prove(eng, r, [okc], z3.And(wallet != 0, K('destination_account') == ATA(wallet, K('emissions_mint'), K('token_program'))),
+                         'destination == ATA(wallet registered by the owner, emissions mint, token program), wallet set', role='destination')
+        ob.notes.append(f'{n_ok} accepting paths')
+        ob.need_witness()
+        return [ob]
+    return t
+
+
+_t19d = tasks
+def tasks(tier):
+    return _t19d(tier) + [('withdraw_emissions', mk_withdraw_emissions(False)), ('withdraw_emissions_permissionless', mk_withdraw_emissions(True))]
